@@ -97,7 +97,7 @@ inductive Expr where
   | add (a b : Expr)
   | call (n : Nat) (arg : Expr)
   | cond (c a b : Expr)
-  deriving Repr, Inhabited
+  deriving DecidableEq, Repr, Inhabited
 
 /-- task bodies: what the task function returns on an (evaluated) argument -/
 structure Prog where
@@ -370,5 +370,30 @@ def handleTree (recount : Bool) (lanes : List Lane) (entries : List Nat) (extra 
   let f := (replay recount lanes entries {} []).1
   let res := lanes.foldl (fun s l => s + l.b) 0
   JT.node taskMain [] (.int res) true (laneJobs (getKey f.key) 0 lanes ++ extra)
+
+/-! ### a side condition of the tie: `Scheduler._evaluate_apply` evaluates two equal expressions under one parent
+job only once (`_pending_expr`, C06); the model has no such memo, so the harness discards workflows in which a task
+function returns an expression with two equal non-literal sub-expressions -/
+
+def subExprs : Expr → List Expr
+  | .lit _ => []
+  | .add a b => .add a b :: (subExprs a ++ subExprs b)
+  | .call n a => .call n a :: subExprs a
+  | .cond c a b => .cond c a b :: (subExprs c ++ subExprs a ++ subExprs b)
+
+def hasDup : List Expr → Bool
+  | [] => false
+  | e :: r => r.contains e || hasDup r
+
+mutual
+  def dupIn (P : Prog) : JT → Bool
+    | .node t a _ _ kids =>
+      (match a with
+       | [va] => hasDup (subExprs (P.body t va))
+       | _ => false) || dupInL P kids
+  def dupInL (P : Prog) : List JT → Bool
+    | [] => false
+    | k :: ks => dupIn P k || dupInL P ks
+end
 
 end RedunModel.Timing
